@@ -1,4 +1,5 @@
 """Helpers shared by the replay drivers: call recording and projections (no property logic)."""
+import os
 import signal
 
 
@@ -34,8 +35,17 @@ def nm(s):
     return list(s)
 
 
+class Text(str):
+    """a caller's own kind of text (a subclass of str adding nothing): every name is still the same name"""
+    __slots__ = ()
+
+
+_SUBCLASSED = os.environ.get("VERIF_WARMUP") == "1"     # the second pass hands every name over as such an instance
+
+
 def txt(chars):
-    return "".join(chars)
+    s = "".join(chars)
+    return Text(s) if _SUBCLASSED else s
 
 
 def integer(x):
